@@ -2,9 +2,29 @@ package main
 
 // C16: handlers that panic (string, error, runtime error, custom struct; default LogPanic or a
 // counting custom Recover that calls recover()), background handlers parked forever, built-in
-// handlers made to panic by short lines.  The connection stays up; every line must be delivered.
+// handlers made to panic by short lines (zero-argument ones included: PING, 433, CAP, JOIN).
+// The connection stays up; every line must be delivered.
+//
+// Every session runs in a CHILD process (this binary re-executed as "h C16child"): a panic that
+// escapes the recovery function kills the whole process, and that must become an observation
+// ("dead" + the first line of the crash report), not the death of the harness.
+
+import (
+	"bufio"
+	"bytes"
+	"fmt"
+	"os"
+	"os/exec"
+	"strings"
+	"time"
+)
+
 func init() {
-	props["C16"] = &Prop{Gen: c16Gen, Exec: dspExec, Setup: dspSetup, Class: dspClass}
+	props["C16"] = &Prop{Gen: c16Gen, Exec: c16RunChild, Class: dspClass}
+	props["C16child"] = &Prop{
+		Gen:  func(r *Rand, tier string, scale int, emit func(Fields)) { c16ChildMain() },
+		Exec: func(in Fields) Fields { return F("bad") },
+	}
 }
 
 func c16Gen(r *Rand, tier string, scale int, emit func(Fields)) {
@@ -13,6 +33,69 @@ func c16Gen(r *Rand, tier string, scale int, emit func(Fields)) {
 	}
 	for n := 0; n < scale; n++ {
 		o := dspGenOpt{panics: true, parks: true, shorts: true, track: n%4 == 3}
-		emit(dspGenCase(r, o, n < 3).encode())
+		c := dspGenCase(r, o, n < 3)
+		if n%2 == 0 {
+			c.recmode = 0 // the default LogPanic in at least every other session
+		}
+		emit(c.encode())
 	}
+}
+
+func c16ChildMain() {
+	sc := bufio.NewScanner(os.Stdin)
+	sc.Buffer(make([]byte, 1<<20), 1<<28)
+	if !sc.Scan() {
+		os.Exit(3)
+	}
+	in, err := ParseFields(sc.Text())
+	if err != nil {
+		os.Exit(3)
+	}
+	dspSetup()
+	obs := dspExec(in)
+	fmt.Println("OBS " + obs.String())
+}
+
+func c16RunChild(in Fields) Fields {
+	exe, err := os.Executable()
+	if err != nil {
+		exe = os.Args[0]
+	}
+	cmd := exec.Command(exe, "C16child")
+	cmd.Stdin = strings.NewReader(in.String() + "\n")
+	var out, errb bytes.Buffer
+	cmd.Stdout = &out
+	cmd.Stderr = &errb
+	if err := cmd.Start(); err != nil {
+		return F("dead", "cannot-start-child: "+err.Error())
+	}
+	done := make(chan error, 1)
+	go func() { done <- cmd.Wait() }()
+	select {
+	case err = <-done:
+	case <-time.After(120 * time.Second):
+		cmd.Process.Kill()
+		<-done
+		err = fmt.Errorf("child timed out")
+	}
+	for _, l := range strings.Split(out.String(), "\n") {
+		if strings.HasPrefix(l, "OBS ") && err == nil {
+			if obs, perr := ParseFields(l[4:]); perr == nil {
+				return obs
+			}
+		}
+	}
+	// the process died: first lines of the crash report (panic value, goroutine)
+	rep := strings.Split(strings.TrimSpace(errb.String()), "\n")
+	first := ""
+	if len(rep) > 0 {
+		first = rep[0]
+	}
+	if err != nil && first == "" {
+		first = err.Error()
+	}
+	if len(first) > 300 {
+		first = first[:300]
+	}
+	return F("dead", first)
 }
